@@ -196,6 +196,21 @@ def c15_witnesses(tier='quick'):
         src = corpus.crate_source(c)
         ws.append({'id': f'c15-{cn}', 'cfg': 'nostd', 'src': src, 'expect': 'pass', 'line': None,
                    'what': f'#![no_std] crate with {len(c["decls"])} integer/float/other declarations compiles against nutype without the std feature'})
+    # the same crate without the serde / arbitrary derives, against a crate graph in which nothing links std
+    import copy
+    for cn, c in crates.items():
+        if c['std']:
+            continue
+        c2 = copy.deepcopy(c)
+        keep = []
+        for d in c2['decls']:
+            d['derives'] = [x for x in d['derives'] if x not in ('Serialize', 'Deserialize', 'Arbitrary')]
+            keep.append(d)
+        c2['decls'] = keep
+        ws.append({'id': f'c15-{cn}-pure', 'cfg': 'nostd0', 'src': corpus.crate_source(c2), 'expect': 'pass', 'line': None,
+                   'what': f'the same #![no_std] crate without serde/arbitrary derives compiles with no std-linking crate in the graph'})
+    ws.append({'id': 'c15-control-std-method', 'cfg': 'nostd0', 'src': HEAD_NOSTD + 'pub fn f(x: f64) -> f64 { x.mul_add(1.0, 0.0) }\n',
+               'expect': {'fail': ['E0599']}, 'line': None, 'what': 'control: a std-only inherent float method does not resolve when nothing links std'})
     # positive control: the same setup must reject a std path (keeps the witness honest)
     ws.append({'id': 'c15-control-std-path', 'cfg': 'nostd', 'src': HEAD_NOSTD + 'pub fn f() -> ::std::vec::Vec<u8> { ::std::vec::Vec::new() }\n',
                'expect': {'fail': ['E0433']}, 'line': None, 'what': 'control: a `::std::` path does not resolve in the no_std witness setup'})
